@@ -149,7 +149,13 @@ func verifNewKV(plain bool, mode, nodes int) *verifKV {
 	return e
 }
 
-func (e *verifKV) str(name string) string { return verifStringN(name, e.slen) }
+// str: a symbolic string of slen bytes; with "varlen" the command's key has 0..slen bytes
+func (e *verifKV) str(name string) string {
+	if name == "key" && verifParam("varlen") == 1 {
+		return verifString(name, e.slen)
+	}
+	return verifStringN(name, e.slen)
+}
 func (e *verifKV) flt(name string) float64 {
 	f := verifFloat64(name)
 	verifAssume(f == f)
